@@ -36,8 +36,8 @@ PROP = dict(
         "c10_multistream/layout-coupled": 300, "c10_multistream/layout-huge": 15, "c10_multistream/format:int16": 100,
         "c10_multistream/format:float": 200, "c10_multistream/format:int24": 100, "c10_multistream/rejected-damaged": 10,
         "c10_multistream/last-stream-padded": 40, "c10_multistream/lfe-stream-checked": 30, "c10_multistream/multi-frame-sub-packets": 100,
-        "c10_layouts/surround-legal": 500, "c10_layouts/surround-illegal": 60000, "c10_layouts/projection-legal": 10,
-        "c10_layouts/projection-illegal": 60000, "c10_layouts/decoder-layout-valid": 300, "c10_layouts/decoder-layout-invalid": 300,
+        "c10_layouts/surround-legal": 500, "c10_layouts/surround-illegal": 2000, "c10_layouts/projection-legal": 10,
+        "c10_layouts/projection-illegal": 2000, "c10_layouts/decoder-layout-valid": 300, "c10_layouts/decoder-layout-invalid": 300,
         "c10_layouts/encoder-layout-valid": 200, "c10_layouts/valid-for-decoder-only": 100,
         "c10_matrix/identity-order-1": 1, "c10_matrix/identity-order-2+2": 1, "c10_matrix/identity-order-5+2": 1,
         "c10_matrix/roundtrip-order-1": 5, "c10_matrix/roundtrip-order-2": 5}},
